@@ -161,6 +161,10 @@ func contractEffects(fn *ssa.Function, fc *FuncContract, pkg *PkgInfo) ModSet {
 		ptypes[p.Name()] = p.Type()
 	}
 	for _, me := range fc.Modifies {
+		if me.Kind == "id" && me.Name == "maps" {
+			ms.prefixes["Map."] = true
+			continue
+		}
 		if me.Kind == "field" && me.Args[0].Kind == "id" && me.Args[0].Name == "ghost" && pkg != nil {
 			own := false
 			if pkg.Contracts != nil {
@@ -348,6 +352,9 @@ func (x *Exec) call(fr *Frame, st *State, c *ssa.CallCommon, pos token.Pos, site
 		if ic := x.vc.uni.ifaceContract(c); ic != nil {
 			return x.ifaceCall(fr, st, ic, c, recv, args, pos, resT)
 		}
+		if isDBCallbackMethod(c) && len(args) == 1 && args[0].K == KFunc && args[0].Fn != nil {
+			return x.callbackOnce(fr, st, c, args[0], pos, resT)
+		}
 		return x.havocCall(fr, st, "interface method "+c.Method.FullName(), resT, true)
 	}
 	if callee := c.StaticCallee(); callee != nil {
@@ -434,7 +441,10 @@ func (x *Exec) canInline(fr *Frame, callee *ssa.Function) bool {
 	loops := findLoops(callee)
 	for _, li := range loops {
 		if fc == nil || fc.Loops[li.Ordinal] == nil {
-			return false
+			// (in partial mode a loop without an invariant gets the trivial one)
+			if fr.top.fc == nil || !fr.top.fc.Partial {
+				return false
+			}
 		}
 	}
 	for _, b := range callee.Blocks {
@@ -584,7 +594,7 @@ func (x *Exec) contractCallSig(fr *Frame, st *State, name string, names []string
 		}
 	}
 	// receiver non-nil
-	if callee != nil && callee.Signature.Recv() != nil && len(args) > 0 && args[0].K == KPtr {
+	if callee != nil && callee.Signature.Recv() != nil && len(args) > 0 && args[0].K == KPtr && !fc.NilOK {
 		o := x.vc.oblige("pre@"+name, Implies(st.Reach, Not(Eq(args[0].Loc.Root, nilRef))), x.posOf(fr.fn, pos), "receiver of "+name+" is non-nil")
 		_ = o
 		x.vc.assume(Implies(st.Reach, Not(Eq(args[0].Loc.Root, nilRef))))
@@ -700,6 +710,15 @@ func ceMentions(e *CE, ps []Param) bool {
 func (x *Exec) havocModifies(env *CEnv, st *State, pre *State, me *CE) {
 	m := x.m()
 	ixT := IntTy{64, true}
+	if me.Kind == "id" && me.Name == "maps" {
+		// "modifies maps": the contents of every Go map may change (maps are not first-class designators)
+		for _, k := range sortedKeys(st.H) {
+			if strings.HasPrefix(k, "Map.") {
+				st.H[k] = x.vc.fresh("mod."+k, st.H[k].S)
+			}
+		}
+		return
+	}
 	star := false
 	if me.Kind == "field" && me.Name == "*" {
 		star = true
